@@ -1,6 +1,7 @@
 import GN.Driver.C10
 import GN.Driver.C12
 import GN.Driver.C16
+import GN.Driver.C18
 import GN.Driver.C19
 import GN.Driver.C20
 import GN.Driver.Req
@@ -16,6 +17,7 @@ def dispatch (line : String) : String :=
   | "C10" :: rest => GN.Driver.C10.handle rest
   | "C12" :: rest => GN.Driver.C12.handle rest
   | "C16" :: rest => GN.Driver.C16.handle rest
+  | "C18" :: rest => GN.Driver.C18.handle rest
   | "C19" :: rest => GN.Driver.C19.handle rest
   | "C20" :: rest => GN.Driver.C20.handle rest
   | "REQ" :: rest => GN.Driver.Req.handle rest
